@@ -1,4 +1,5 @@
 import Dashu.Proofs.Cross.Dispatch
+import Dashu.Proofs.Cross.Fixed
 import Dashu.Proofs.Cross.Counter
 import Dashu.Proofs.Cross.Spec
 import Dashu.Proofs.Cross.HashProofs
@@ -17,10 +18,10 @@ import Dashu.Proofs.Cross.HashWeak
     same hypothesis on every generated input by the harness op `log2encl`.
   * Specification side: `XVal.cmp` / `XVal.absCmp` on the exact values `Num.value` — the order of
     the exact rationals (`spec_lt/eq/gt`), NaN incomparable, `-0.0 = 0`, `±∞` at the ends.
-  * Where the code at the pinned commit is wrong the model mirrors it, the theorem is `…_partial`
-    with the weakest input hypothesis we could state that excludes the defect class, the full
-    statement is kept as a comment, and a `…_counterexample` proves the hypothesis is needed.
-    The same predicates key the entries of `known_findings.jsonl`.
+  * The model mirrors /repo AFTER the seven C14 fix commits (8a8c152, 2670e13, 3c2d452, 8e7c970,
+    318bce3, 378134e, d12bb0c); all property theorems are FULL.  The code before those commits is
+    kept as a separate model (`Model/Cross/Pre.lean`, `numHashFeedPre`) only for the labelled
+    as-is statements `prefix_…` at the end, which record what was wrong.
 -/
 namespace Dashu.Props.C14
 open Dashu.Model.Cross
@@ -101,78 +102,67 @@ theorem ratio_eq_ratio (abs : Bool) (n1 : Int) {d1 : Nat} (h1 : 0 < d1) (n2 : In
       else XVal.cmp (.fin n1 d1) (.fin n2 d2)) == some .eq) :=
   ratReprEq_spec abs n1 h1 n2 h2
 
--- ================================================================== NumOrd with primitive floats (partial)
-
-/-  FULL statement (FALSE at the pinned commit — defects A and F):
-      theorem num_ord_exact (ho : o.Sound) (x y : Num) (wx : x.WF) (wy : y.WF)
-        (h : numPartialCmp o x y = some r) : r = XVal.cmp x.value y.value
-    It fails exactly on
-      A: a zero UBig/IBig/FBig/RBig/Relaxed against a positive f32/f64 below 1/2 (1/4 for rationals):
-         `bit_len(0) = 0` is used as a logarithm;                      (`defectA`)
-      F: an IBig against the infinity of its own sign: `-sign * Ordering::Less`.   (`defectF`)  -/
+-- ================================================================== NumOrd, the whole table
 
 /-- NumOrd over the WHOLE table of implemented pairs (UBig, IBig, FBig⟨any B⟩, RBig, Relaxed, all
     primitive integers, f32, f64; both argument orders): `num_partial_cmp` returns the order of the
-    exact values (`none` iff NaN) for every sound oracle — PARTIAL: outside defect classes A and F. -/
-theorem num_ord_exact_partial {o : Oracle} (ho : o.Sound) (x y : Num) (wx : x.WF) (wy : y.WF)
-    (hd : numCmpDefect x y = none) {r : Option Ordering} (h : numPartialCmp o x y = some r) :
-    r = XVal.cmp x.value y.value :=
-  numPartialCmp_partial ho x y wx wy hd h
+    exact values (`none` iff NaN) for every sound oracle. -/
+theorem num_ord_exact {o : Oracle} (ho : o.Sound) (x y : Num) (wx : x.WF) (wy : y.WF)
+    {r : Option Ordering} (h : numPartialCmp o x y = some r) : r = XVal.cmp x.value y.value :=
+  numPartialCmp_spec ho x y wx wy h
 
-/-- `num_eq` (incl. the `repr_eq` override for RBig × Relaxed) — PARTIAL like `num_ord_exact_partial` -/
-theorem num_eq_exact_partial {o : Oracle} (ho : o.Sound) (x y : Num) (wx : x.WF) (wy : y.WF)
-    (hd : numCmpDefect x y = none) {b : Bool} (h : numEq o x y = some b) :
-    b = (XVal.cmp x.value y.value == some .eq) :=
-  numEq_partial ho x y wx wy hd h
+/-- `num_eq` (incl. the `repr_eq` override for RBig × Relaxed) decides equality of the exact values -/
+theorem num_eq_exact {o : Oracle} (ho : o.Sound) (x y : Num) (wx : x.WF) (wy : y.WF)
+    {b : Bool} (h : numEq o x y = some b) : b = (XVal.cmp x.value y.value == some .eq) :=
+  numEq_spec ho x y wx wy h
 
 /-- the estimate path and the exact path cannot disagree: any two sound oracles give the same
     answer (in particular the bit-length oracle and the never-filtering one the driver runs) -/
 theorem num_ord_oracle_independent {o1 o2 : Oracle} (h1 : o1.Sound) (h2 : o2.Sound) (x y : Num)
-    (wx : x.WF) (wy : y.WF) (hd : numCmpDefect x y = none) {r1 r2 : Option Ordering}
+    (wx : x.WF) (wy : y.WF) {r1 r2 : Option Ordering}
     (e1 : numPartialCmp o1 x y = some r1) (e2 : numPartialCmp o2 x y = some r2) : r1 = r2 := by
-  rw [numPartialCmp_partial h1 x y wx wy hd e1, numPartialCmp_partial h2 x y wx wy hd e2]
+  rw [numPartialCmp_spec h1 x y wx wy e1, numPartialCmp_spec h2 x y wx wy e2]
 
-/-- defect A is real: `UBig::ZERO.num_partial_cmp(&2^-5)` is `Greater` in the mirrored code -/
-theorem num_ord_zero_counterexample :
-    ubigNumOrdFloat .f64 0 (.fin (2 ^ 52) (-57)) = some .gt ∧
-      XVal.cmp (.fin 0 1) (decodedValue (.fin (2 ^ 52) (-57))) = some .lt ∧
-      defectA (.nat 0) (2 ^ 52) (-57) = true ∧ (Decoded.fin (2 ^ 52) (-57)).InRange .f64 :=
-  ubigNumOrdFloat_counterexample
-
-/-- defect F is real: `IBig 5` against `+∞` is `Greater` in the mirrored code -/
-theorem num_ord_inf_counterexample :
-    ibigNumOrdFloat .f64 5 (.inf false) = some .gt ∧
-      XVal.cmp (.fin 5 1) (decodedValue (.inf false)) = some .lt ∧ defectF (.int 5) false = true :=
-  ibigNumOrdFloat_inf_counterexample
+/-- NumOrd against f32/f64, impl by impl (bit-length bounds, no oracle) -/
+theorem ubig_cmp_prim_float (t : FloatTy) (x : Nat) (bits : Nat) :
+    ubigNumOrdFloat t x (decode t bits) = XVal.cmp (.fin (x : Int) 1) (Num.pfloat t bits).value :=
+  ubigNumOrdFloat_spec t x _ (decode_inRange t bits)
+theorem ibig_cmp_prim_float (t : FloatTy) (x : Int) (bits : Nat) :
+    ibigNumOrdFloat t x (decode t bits) = XVal.cmp (.fin x 1) (Num.pfloat t bits).value :=
+  ibigNumOrdFloat_spec t x _ (decode_inRange t bits)
+theorem float_cmp_prim_float (t : FloatTy) {B : Nat} (hB : 2 ≤ B) (s e : Int) (p : Nat) (bits : Nat) :
+    reprNumOrdFloat t B s e (decode t bits)
+      = XVal.cmp (Num.fbig B s e p).value (Num.pfloat t bits).value :=
+  reprNumOrdFloat_spec t hB s e p _ (decode_inRange t bits)
+theorem ratio_cmp_prim_float (t : FloatTy) (n : Int) {d : Nat} (hd : 0 < d) (bits : Nat) :
+    ratNumOrdFloat t n d (decode t bits) = XVal.cmp (.fin n d) (Num.pfloat t bits).value :=
+  ratNumOrdFloat_spec t n hd _ (decode_inRange t bits)
 
 /-- every decoded f32/f64 meets the range hypothesis used by the "bigger than the max float" step -/
 theorem decoded_in_range (t : FloatTy) (bits : Nat) : (decode t bits).InRange t := decode_inRange t bits
 
 -- ================================================================== AbsOrd
 
-/-  FULL statement (FALSE at the pinned commit — defect B):
-      theorem abs_ord_exact (ho : o.Sound) (x y) (wx) (wy) (px) (py)
-        (h : absCmp o x y = some r) : some r = XVal.absCmp x.value y.value
-    It fails for a finite FBig against a UBig/IBig when the significand (or the IBig) is negative and
-    the estimates overlap: the exact step of `repr_cmp_ubig/ibig::<B, true>` compares signed values. -/
-
 /-- AbsOrd over the whole table (UBig, IBig, FBig of one base, FBig × UBig/IBig, RBig/Relaxed ×
-    everything): the order of the magnitudes for every sound oracle — PARTIAL: outside defect B. -/
-theorem abs_ord_exact_partial {o : Oracle} (ho : o.Sound) (x y : Num) (wx : x.WF) (wy : y.WF)
-    (px : x.PrecOK) (py : y.PrecOK) (hd : absCmpDefect x y = none) {r : Ordering}
-    (h : absCmp o x y = some r) : some r = XVal.absCmp x.value y.value :=
-  absCmp_partial ho x y wx wy px py hd h
+    everything): the order of the magnitudes for every sound oracle. -/
+theorem abs_ord_exact {o : Oracle} (ho : o.Sound) (x y : Num) (wx : x.WF) (wy : y.WF)
+    (px : x.PrecOK) (py : y.PrecOK) {r : Ordering} (h : absCmp o x y = some r) :
+    some r = XVal.absCmp x.value y.value :=
+  absCmp_spec ho x y wx wy px py h
 
-/-- defect B is real, with a sound oracle: `FBig(-5).abs_cmp(UBig 5) = Less`,
-    `FBig(5).abs_cmp(IBig -5) = Greater` -/
-theorem abs_ord_counterexample :
-    Oracle.noFilter.Sound ∧ floatReprCmpUbig Oracle.noFilter true 2 (-5) 0 5 = .lt ∧
-      XVal.absCmp (Num.fbig 2 (-5) 0 3).value (Num.ubig 5).value = some .eq :=
-  floatReprCmpUbig_abs_counterexample
-theorem abs_ord_ibig_counterexample :
-    Oracle.noFilter.Sound ∧ floatReprCmpIbig Oracle.noFilter true 2 5 0 (-5) = .gt ∧
-      XVal.absCmp (Num.fbig 2 5 0 3).value (Num.ibig (-5)).value = some .eq :=
-  floatReprCmpIbig_abs_counterexample
+/-- float/src/cmp.rs `repr_cmp_ubig::<B, true>`, `repr_cmp_ibig::<B, true>` (AbsOrd FBig × UBig/IBig,
+    any signs) -/
+theorem float_abs_cmp_ubig {o : Oracle} (ho : o.Sound) {B : Nat} (hB : 2 ≤ B) (s e : Int) (r p : Nat) :
+    some (floatReprCmpUbig o true B s e r) = XVal.absCmp (Num.fbig B s e p).value (Num.ubig r).value :=
+  floatReprCmpUbig_abs_spec ho hB s e r p
+theorem float_abs_cmp_ibig {o : Oracle} (ho : o.Sound) {B : Nat} (hB : 2 ≤ B) (s e r : Int) (p : Nat) :
+    some (floatReprCmpIbig o true B s e r) = XVal.absCmp (Num.fbig B s e p).value (Num.ibig r).value :=
+  floatReprCmpIbig_abs_spec ho hB s e r p
+
+/-- base/src/sign.rs `AbsOrd for iN` (`unsigned_abs`): the order of the magnitudes, incl. `iN::MIN` -/
+theorem prim_abs_cmp (a b : Int) :
+    some (primIntAbsCmp a b) = XVal.absCmp (.fin a 1) (.fin b 1) := by
+  simp [primIntAbsCmp, XVal.absCmp, XVal.abs, XVal.cmp, cmpN_cast]
 
 /-- `AbsOrd for FBig` / `Ord for FBig` (`repr_cmp_same_base` with its exponent+precision and
     exponent+digits shortcuts) — full -/
@@ -202,50 +192,25 @@ theorem ratio_abs_cmp_float {o : Oracle} (ho : o.Sound) (n : Int) {d : Nat} (hd 
 /-- `M = 2^127 - 1` is prime (the feed lives in the field `ℤ/M`) -/
 theorem mersenne127_prime : Nat.Prime M127 := M127_prime
 
-/-- every impl feeds the canonical hash of its exact value `n/d` (`hashQ`: `±(|n| mod M)·(d mod M)⁻¹`),
-    whenever the denominator is a unit mod `M` -/
-theorem hash_is_function_of_value {x : Num} (hx : x.HashOK) {n : Int} {d : Nat}
-    (vx : x.value = .fin n d) : numHashFeed x = hashQ n d ∧ ¬ M127 ∣ d :=
-  numHashFeed_eq_hashQ hx vx
-
-/-  FULL statement (FALSE at the pinned commit — defect C):
-      theorem num_hash_value (x y) (0 < den) (equal values) : numHashFeed x = numHashFeed y  -/
-
-/-- NumHash: numerically equal numbers of any two types (UBig, IBig, FBig⟨B⟩, RBig, Relaxed, every
-    primitive integer, f32, f64) feed the same `i128` — PARTIAL: rational arguments must have a
-    stored denominator not divisible by `M` (`Num.HashOK`). -/
-theorem num_hash_value_partial {x y : Num} (hx : x.HashOK) (hy : y.HashOK) {n1 n2 : Int} {d1 d2 : Nat}
+/-- NumHash: numerically equal numbers of any two types (UBig, IBig, FBig⟨B⟩, RBig, Relaxed incl.
+    non-reduced ones, every primitive integer, f32, f64) feed the same `i128`. -/
+theorem num_hash_value {x y : Num} (hx : x.HashOK) (hy : y.HashOK) {n1 n2 : Int} {d1 d2 : Nat}
     (vx : x.value = .fin n1 d1) (vy : y.value = .fin n2 d2) (h : n1 * d2 = n2 * d1) :
     numHashFeed x = numHashFeed y :=
   numHash_value hx hy vx vy h
 
-/-- the same under the WEAKEST hypothesis: only a rational argument with BOTH stored parts divisible
-    by `M` is excluded (`Num.HashOKWeak`, the predicate of the recorded finding) -/
-theorem num_hash_value_weak_partial {x y : Num} (hx : x.HashOKWeak) (hy : y.HashOKWeak) {n1 n2 : Int}
-    {d1 d2 : Nat} (vx : x.value = .fin n1 d1) (vy : y.value = .fin n2 d2) (h : n1 * d2 = n2 * d1) :
-    numHashFeed x = numHashFeed y :=
-  numHash_value_weak hx hy vx vy h
+/-- the feed is the canonical hash of the exact value `n/d` (`hashQ`: `±(|n| mod M)·(d mod M)⁻¹`)
+    whenever the stored denominator is a unit mod `M` … -/
+theorem hash_is_function_of_value {x : Num} (hx : x.HashOKPre) {n : Int} {d : Nat}
+    (vx : x.value = .fin n d) : numHashFeedPre x = hashQ n d ∧ ¬ M127 ∣ d :=
+  numHashFeedPre_eq_hashQ hx vx
 
-/-- the `M | den` corner is NOT consistent: the reduced `RBig 1/1` and the non-reduced
-    `Relaxed M/M` are equal numbers with different feeds (1 vs the INF constant, 0). -/
-theorem num_hash_corner_counterexample :
-    numHashFeed (.rbig 1 1) ≠ numHashFeed (.relaxed (M127 : Int) M127) ∧
-      (1 : Int) * (M127 : Nat) = (M127 : Int) * (1 : Nat) :=
-  ⟨ratHash_corner_counterexample, ratHash_corner_same_value.2.2⟩
-
-/-- REQUIRED behaviour (what the proposed fix implements): after cancelling the common factor `M`
-    the feed is a function of the value for ALL rationals … -/
-theorem num_hash_canon_value {x y : Num} (hx : x.HashOKCanon) (hy : y.HashOKCanon) {n1 n2 : Int}
-    {d1 d2 : Nat} (vx : x.value = .fin n1 d1) (vy : y.value = .fin n2 d2) (h : n1 * d2 = n2 * d1) :
-    numHashFeedCanon x = numHashFeedCanon y :=
-  numHashCanon_value hx hy vx vy h
-
-/-- … and it differs from the code only when `M` divides BOTH stored parts (so the corner is
-    consistent among reduced `RBig`s, and between an `RBig` and a `Relaxed` that merely has
-    `M | den`). -/
-theorem num_hash_canon_eq_code {n : Int} {d : Nat} (h : ¬ (M127 ∣ d ∧ (M127 : Int) ∣ n ∧ n ≠ 0)) :
-    ratHashCanon n d = ratHash n d :=
-  ratHashCanon_eq_ratHash h
+/-- … and the current code differs from that body only by first cancelling a common factor `M`
+    (so the `M | den` corner — the INF/NEGINF constants — is reached only when `M` divides the
+    denominator of the REDUCED fraction, for every representation of the value) -/
+theorem rat_hash_eq_body {n : Int} {d : Nat} (h : ¬ (M127 ∣ d ∧ (M127 : Int) ∣ n ∧ n ≠ 0)) :
+    ratHash n d = ratHashPre n d :=
+  ratHash_eq_ratHashPre h
 
 -- ================================================================== non-vacuity / concrete instances
 
@@ -261,13 +226,61 @@ example : numPartialCmp Oracle.coarse (.fbig 2 0 1 0) (.pfloat .f32 0x7f800000) 
   decide +kernel
 example : numPartialCmp Oracle.coarse (.fbig 10 1 (10 ^ 15) 1) (.ubig 5) = some (some .gt) := by
   decide +kernel
-example : (Num.fbig 10 25 (-1) 2).WF ∧ (Num.rbig 5 2).WF ∧
-    numCmpDefect (.fbig 10 25 (-1) 2) (.rbig 5 2) = none := by
-  refine ⟨⟨by norm_num, fun h => absurd h (by norm_num)⟩, by norm_num [Num.WF], by decide⟩
+example : (Num.fbig 10 25 (-1) 2).WF ∧ (Num.rbig 5 2).WF := by
+  refine ⟨⟨by norm_num, fun h => absurd h (by norm_num)⟩, by norm_num [Num.WF]⟩
+/-- the repaired inputs: 0 < 2⁻⁵, IBig 5 < +∞, |FBig −5| = |UBig 5|, Relaxed M/M hashes like 1 -/
+example : numPartialCmp Oracle.coarse (.ubig 0) (.pfloat .f64 0x3fa0000000000000) = some (some .lt) := by
+  decide +kernel
+example : numPartialCmp Oracle.coarse (.ibig 5) (.pfloat .f64 0x7ff0000000000000) = some (some .lt) := by
+  decide +kernel
+example : absCmp Oracle.coarse (.fbig 2 (-5) 0 3) (.ubig 5) = some .eq := by decide +kernel
 example : numHashFeed (.fbig 10 25 (-1) 2) = numHashFeed (.pfloat .f64 0x4004000000000000) :=
-  num_hash_value_partial (x := .fbig 10 25 (-1) 2) (y := .pfloat .f64 0x4004000000000000)
-    ⟨by norm_num, by norm_num [M127]⟩ (by norm_num [Num.HashOK, FloatTy.mantBits, FloatTy.expBits])
+  num_hash_value (x := .fbig 10 25 (-1) 2) (y := .pfloat .f64 0x4004000000000000)
+    ⟨by norm_num, by norm_num [M127]⟩
+    (by norm_num [Num.HashOK, Num.HashOKPre, FloatTy.mantBits, FloatTy.expBits])
     (n1 := 25) (d1 := 10) (n2 := 5 * 2 ^ 50) (d2 := 2 ^ 51) (by rfl) (by rfl)
     (by norm_num)
+
+-- ================================================================== AS-IS statements about the PRE-FIX code
+-- (`Model/Cross/Pre.lean`, `numHashFeedPre`: /repo before the C14 fix commits; nothing below is
+--  about the current code — they record why the fixes were needed)
+
+/-- before 8a8c152: `UBig::ZERO.num_partial_cmp(&2^-5)` was `Greater` -/
+theorem prefix_num_ord_zero :
+    ubigNumOrdFloatPre .f64 0 (.fin (2 ^ 52) (-57)) = some .gt ∧
+      XVal.cmp (.fin 0 1) (decodedValue (.fin (2 ^ 52) (-57))) = some .lt ∧
+      defectA (.nat 0) (2 ^ 52) (-57) = true ∧ (Decoded.fin (2 ^ 52) (-57)).InRange .f64 :=
+  ubigNumOrdFloatPre_counterexample
+
+/-- before d12bb0c: `IBig 5` against `+∞` was `Greater` -/
+theorem prefix_num_ord_inf :
+    ibigNumOrdFloatPre .f64 5 (.inf false) = some .gt ∧
+      XVal.cmp (.fin 5 1) (decodedValue (.inf false)) = some .lt ∧ defectF (.int 5) false = true :=
+  ibigNumOrdFloatPre_inf_counterexample
+
+/-- before 2670e13, with a sound oracle: `FBig(-5).abs_cmp(UBig 5) = Less`,
+    `FBig(5).abs_cmp(IBig -5) = Greater` -/
+theorem prefix_abs_ord_ubig :
+    Oracle.noFilter.Sound ∧ floatReprCmpUbigPre Oracle.noFilter true 2 (-5) 0 5 = .lt ∧
+      XVal.absCmp (Num.fbig 2 (-5) 0 3).value (Num.ubig 5).value = some .eq :=
+  floatReprCmpUbigPre_abs_counterexample
+theorem prefix_abs_ord_ibig :
+    Oracle.noFilter.Sound ∧ floatReprCmpIbigPre Oracle.noFilter true 2 5 0 (-5) = .gt ∧
+      XVal.absCmp (Num.fbig 2 5 0 3).value (Num.ibig (-5)).value = some .eq :=
+  floatReprCmpIbigPre_abs_counterexample
+
+/-- before 3c2d452 the `M | den` corner was NOT consistent: the reduced `RBig 1/1` and the
+    non-reduced `Relaxed M/M` are equal numbers that fed 1 and 0 … -/
+theorem prefix_num_hash_corner :
+    numHashFeedPre (.rbig 1 1) ≠ numHashFeedPre (.relaxed (M127 : Int) M127) ∧
+      (1 : Int) * (M127 : Nat) = (M127 : Int) * (1 : Nat) :=
+  ⟨ratHashPre_corner_counterexample, ratHashPre_corner_same_value.2.2⟩
+
+/-- … and that was the only inconsistency: outside rationals with BOTH stored parts divisible by `M`
+    the old code already fed a function of the value -/
+theorem prefix_num_hash_value_weak {x y : Num} (hx : x.HashOKWeak) (hy : y.HashOKWeak) {n1 n2 : Int}
+    {d1 d2 : Nat} (vx : x.value = .fin n1 d1) (vy : y.value = .fin n2 d2) (h : n1 * d2 = n2 * d1) :
+    numHashFeedPre x = numHashFeedPre y :=
+  numHashPre_value_weak hx hy vx vy h
 
 end Dashu.Props.C14
